@@ -274,6 +274,36 @@ impl MasterRig {
         );
     }
 
+    /// asks the channel for a second association with an address that is taken already; true = refused
+    pub async fn add_duplicate_association(&mut self, addr: u16, config: AssociationConfig) -> bool {
+        let clock = Clock {
+            offset: Arc::new(Mutex::new(Some(0))),
+            start: self.start,
+        };
+        let info = InfoLog {
+            log: Default::default(),
+            start: Some(self.start),
+        };
+        let mut ch = self.channel.clone();
+        let polls = self.polls.clone();
+        let jh = tokio::spawn(Counted::new(
+            async move {
+                ch.add_association(
+                    EndpointAddress::raw(addr),
+                    config,
+                    Box::new(RecHandler::default()),
+                    Box::new(clock),
+                    Box::new(info),
+                )
+                .await
+                .is_err()
+            },
+            polls,
+        ));
+        self.settle().await;
+        jh.await.unwrap_or(true)
+    }
+
     /// hand the master a new connection
     pub async fn connect(&mut self) {
         let (io, peer) = pipe(false);
